@@ -6,7 +6,8 @@ From Coq Require Import Sorting.Sorted Sorting.Permutation.
 From GoCar Require Import Bytes Varint Cid Header Frame V2Header Scan Index Store Wf Transform Deferred.
 From GoCarProofs Require Import BytesFacts VarintFacts CidFacts HeaderFacts ScanFacts
      FinalBytes FinalOrder FinalIndex FinalStore FinalCid FinalWf FinalWide FinalAccept FinalMain.
-From GoCarProofs Require IndexSort IndexLoad IndexRoundtrip TransformWrap DeferredFacts.
+From GoCar Require Traversal.
+From GoCarProofs Require IndexSort IndexLoad IndexRoundtrip TransformWrap DeferredFacts TraversalV2.
 
 (* ---- the LdWrite guard ----------------------------------------------------------------------------------- *)
 Lemma history_ok_frameable h : history_ok h = true ->
@@ -327,4 +328,145 @@ Proof.
   apply wf_finished_container; try assumption; try reflexivity.
   - cbn [w_dpad w_ipad wopts_of_x]. rewrite !blen_app, blen_pragma, blen_enc_v2hdr. change (blen (zerosN 0)) with 0. unfold P in *. lia.
   - exact (g_index_exact (x_storeid xo) (x_codec xo) _ recs i0 fi Hperm Hrecs Hnew eq_refl Hsm Hcd).
+Qed.
+
+(* ---- the traversal writers (v2/selective.go: TraverseToFile, and NewSelectiveWriter.WriteTo which writes the same
+   bytes; model Traversal.v, closed form TraversalV2.traverse_to_file_spec, C15) ----------------------------------
+   The index holds every section written (identity CIDs included), arranged from a Go map whose iteration order
+   is [order] -- any permutation; the fully-indexed bit is not set. *)
+Definition wopts_of_t (o : Traversal.topts) : wopts :=
+  mkwopts (Traversal.o_dpad o) (Traversal.o_ipad o) (Traversal.o_codec o) false 2048 true false false false
+          default_maxh default_maxs.
+
+Lemma recs_to_irecs_map l rs : Traversal.recs_to_irecs l = Some rs ->
+  map (fun r => rec_of_cid (fst r) (snd r)) l = map Some rs.
+Proof.
+  revert rs. induction l as [|r t IH]; intros rs H; cbn [Traversal.recs_to_irecs] in H.
+  - inversion H. reflexivity.
+  - destruct (rec_of_cid (fst r) (snd r)) as [x|] eqn:E; [|discriminate].
+    destruct (Traversal.recs_to_irecs t) as [xs|]; [|discriminate]. inversion H. cbn [map]. rewrite E, (IH xs eq_refl). reflexivity.
+Qed.
+
+Lemma place_recs_secs bs : Forall put_ok bs -> forall pos,
+  map (fun r => rec_of_cid (fst r) (snd r)) (map TraversalV2.rec_of_place (Traversal.place pos bs))
+  = map Some (map rec_of_sec (secs_of pos bs)).
+Proof.
+  induction 1 as [|[c d] t [Hc _] _ IH]; intros pos; [reflexivity|]. cbn [fst] in Hc.
+  destruct (cid_from_bytes_ok c [] Hc) as (p & _ & Hp).
+  cbn [Traversal.place map secs_of fst snd TraversalV2.rec_of_place]. rewrite Hp. cbn [map].
+  unfold rec_of_cid at 1. rewrite Hp. rewrite IH. reflexivity.
+Qed.
+
+Lemma map_some_inj {A} (a b : list A) : map Some a = map Some b -> a = b.
+Proof.
+  revert b. induction a as [|x a IH]; intros [|y b] H; cbn in H; try discriminate; [reflexivity|].
+  inversion H. f_equal. apply IH. assumption.
+Qed.
+
+(* the number of distinct hash codes does not depend on the arrangement of the records *)
+Lemma n_codes_perm a b : Permutation a b -> n_codes a = n_codes b.
+Proof.
+  intros Hp. unfold n_codes.
+  assert (G : forall rs, length (group_by r_code rs) = length (nodup N.eq_dec (map r_code rs))).
+  { intros rs. destruct (group_by_ok r_code rs) as [Hs Hg].
+    assert (Hk : forall k, In k (map fst (group_by r_code rs)) <-> In k (map r_code rs)).
+    { intros k. split.
+      - intros Hin. apply in_map_iff in Hin. destruct Hin as ([k' g] & <- & Hin). destruct (Hg _ _ Hin) as [Hne Hall].
+        destruct g as [|x g']; [congruence|]. inversion Hall as [|? ? Hx _]; subst. cbn [fst].
+        apply in_map. apply (group_sub r_code rs _ _ Hin). left. reflexivity.
+      - intros Hin. apply in_map_iff in Hin. destruct Hin as (x & <- & Hx).
+        destruct (group_by_find r_code rs x Hx) as (g & Hget & _). apply (kv_get_in _ Hs) in Hget.
+        apply (in_map fst) in Hget. exact Hget. }
+    assert (Hnd : NoDup (map fst (group_by r_code rs))).
+    { unfold keys_asc in Hs. clear -Hs. induction Hs as [|k t Ht IH Hall]; constructor; [|exact IH].
+      intros Hin. rewrite Forall_forall in Hall. specialize (Hall k Hin). lia. }
+    rewrite <- (map_length fst). apply Permutation_length. apply NoDup_Permutation; [exact Hnd|apply NoDup_nodup|].
+    intros k. rewrite nodup_In. apply Hk. }
+  rewrite !G. apply Permutation_length. apply NoDup_Permutation; try apply NoDup_nodup.
+  intros k. rewrite !nodup_In. split; intros H; [apply (Permutation_in _ (Permutation_map r_code Hp))|apply (Permutation_in _ (Permutation_map r_code (Permutation_sym Hp)))]; exact H.
+Qed.
+
+Theorem traverse_output_wf (order : list (bytes * N) -> list (bytes * N)) root o ls out :
+  (forall l, Permutation (order l) l) ->
+  let o' := Traversal.apply_opts o in
+  let bs := Traversal.first_occ (Traversal.blocks_of ls) in
+  Forall TraversalV2.load_ok ls ->
+  TraversalV2.no_wrap o' (blen (enc_payload [root] bs)) = true ->
+  Traversal.traverse_to_file order root o (Traversal.mktrace ls true) = (out, None) ->
+  idx_new (Traversal.o_codec o') <> None ->
+  roots_ok [root] -> Forall put_ok bs -> Forall (fun b : block => blen (fst b) + 8 <= max_width) bs ->
+  blen out < two63 ->
+  (Traversal.o_codec o' = codec_mh_sorted ->
+   N.of_nat (n_codes (map rec_of_sec (secs_of (hdr_len (Some [root])) bs))) < two31) ->
+  wf_finished false (wopts_of_t o') out = Some ([root], bs).
+Proof.
+  intros Hord o' bs Hok Hnw Hout Hnew Hr Hput Hwide Hlen Hcodes.
+  rewrite (TraversalV2.traverse_to_file_spec order root o ls Hok Hnw) in Hout. fold o' bs in Hout.
+  unfold TraversalV2.index_tail in Hout.
+  destruct (idx_new (Traversal.o_codec o')) as [i0|] eqn:En; [|congruence].
+  assert (Hnone : (Traversal.o_codec o' =? Traversal.codec_none) = false).
+  { unfold idx_new in En. destruct (Traversal.o_codec o' =? codec_sorted) eqn:E1.
+    - unfold Traversal.codec_none, codec_sorted in *. lia.
+    - destruct (Traversal.o_codec o' =? codec_mh_sorted) eqn:E2; [|discriminate].
+      unfold Traversal.codec_none, codec_mh_sorted in *. lia. }
+  rewrite Hnone in Hout. unfold Traversal.writer_index in Hout. rewrite En in Hout.
+  destruct (Traversal.recs_to_irecs (order (TraversalV2.v1_recs root ls))) as [rs|] eqn:Ers; cbn [fst snd] in Hout; [|discriminate].
+  assert (Hout' : out = (pragma ++ enc_v2hdr (TraversalV2.v2_header o' (blen (enc_payload [root] bs))) ++ zerosN (Traversal.o_dpad o')) ++
+                        enc_payload [root] bs ++ zerosN (Traversal.o_ipad o') ++ idx_write (idx_load rs i0)) by congruence.
+  clear Hout. rewrite Hout' in *. clear Hout'.
+  set (P := payload_opt (Some [root]) bs). change (enc_payload [root] bs) with P in *.
+  set (secs := secs_of (hdr_len (Some [root])) bs).
+  (* the records: a permutation of one per section *)
+  assert (Hperm0 : Permutation rs (map rec_of_sec secs)).
+  { pose proof (recs_to_irecs_map _ _ Ers) as E1.
+    pose proof (Permutation_map (fun r => rec_of_cid (fst r) (snd r)) (Hord (TraversalV2.v1_recs root ls))) as Hp.
+    rewrite E1 in Hp. unfold TraversalV2.v1_recs in Hp. fold bs in Hp.
+    change (Traversal.head_size root) with (hdr_len (Some [root])) in Hp.
+    rewrite (place_recs_secs bs Hput) in Hp. fold secs in Hp.
+    apply Permutation_sym in Hp. destruct (Permutation_map_inv _ _ Hp) as (l3 & E3 & Hp3).
+    apply map_some_inj in E3. subst l3. exact Hp3. }
+  assert (Hall : filter (indexable true) secs = secs) by (apply filter_all; apply Forall_forall; intros; reflexivity).
+  assert (HL : blen ((pragma ++ enc_v2hdr (TraversalV2.v2_header o' (blen P)) ++ zerosN (Traversal.o_dpad o')) ++
+                     P ++ zerosN (Traversal.o_ipad o') ++ idx_write (idx_load rs i0))
+               = 51 + Traversal.o_dpad o' + blen P + Traversal.o_ipad o' + blen (idx_write (idx_load rs i0))).
+  { rewrite !blen_app, blen_pragma, blen_enc_v2hdr, !blen_zerosN. lia. }
+  rewrite HL in Hlen.
+  assert (Hsecs : Forall (fun s => s_off s < hdr_len (Some [root]) + blen (enc_sections bs)) secs /\
+                  Forall (fun s => cid_parse (s_cid s) = Some (s_p s)) secs).
+  { split; [|apply secs_of_parse]. unfold secs. generalize (hdr_len (Some [root])). clear -Hput.
+    induction Hput as [|[c d] t [Hc _] _ IH]; intros pos; [constructor|]. cbn [fst] in Hc.
+    destruct (cid_from_bytes_ok c [] Hc) as (p & _ & Hp). cbn [secs_of]. rewrite Hp.
+    assert (E : blen (enc_sections (((c, d) : block) :: t)) = section_size c d + blen (enc_sections t)).
+    { unfold enc_sections. cbn [map concat fst snd]. rewrite blen_app, blen_enc_section. reflexivity. }
+    rewrite E. assert (1 <= section_size c d) by (unfold section_size, ld_size; pose proof (uv_size_pos (blen c + blen d)); lia).
+    constructor; [cbn [s_off]; lia|]. eapply Forall_impl; [|apply (IH (pos + section_size c d))]. cbn beta. intros s Hs. lia. }
+  destruct Hsecs as [Hoffs Hpars].
+  assert (Hrecs : Forall IndexLoad.rec_ok rs).
+  { rewrite Forall_forall. intros r Hr0. apply (Permutation_in _ Hperm0) in Hr0. apply in_map_iff in Hr0.
+    destruct Hr0 as (s & <- & Hs). rewrite Forall_forall in Hoffs, Hpars.
+    specialize (Hoffs s Hs). specialize (Hpars s Hs).
+    destruct (cid_parse_bytes_ok _ _ Hpars) as [Hcok Hce].
+    unfold IndexLoad.rec_ok, rec_width, rec_of_sec. cbn [r_off r_code r_digest].
+    unfold P in Hlen. rewrite blen_payload_opt in Hlen. split; [unfold two63, two64 in *; lia|]. split.
+    - destruct Hcok as [(_ & _ & Hm & _)|(_ & _ & Hm & _)]; [rewrite Hm; unfold two64; lia|unfold two63, two64 in *; lia].
+    - pose proof (cid_digest_le (s_p s)) as Hd. rewrite <- Hce in Hd.
+      assert (Hin : In (s_cid s) (map fst bs)).
+      { rewrite <- (secs_of_blocks bs Hput (hdr_len (Some [root]))). rewrite map_map. apply in_map_iff. exists s. auto. }
+      rewrite Forall_forall in Hwide. apply in_map_iff in Hin. destruct Hin as (b & Hb1 & Hb2).
+      specialize (Hwide b Hb2). rewrite Hb1 in Hwide. lia. }
+  assert (Hperm : Permutation rs (map rec_of_sec (filter (indexable true) secs))) by (rewrite Hall; exact Hperm0).
+  assert (Hsm : blen (idx_write (idx_load rs i0)) < two63) by lia.
+  assert (Hcd : Traversal.o_codec o' = codec_mh_sorted -> N.of_nat (n_codes rs) < two31).
+  { intros E. specialize (Hcodes E). fold secs in Hcodes.
+    rewrite (n_codes_perm _ _ Hperm0). exact Hcodes. }
+  destruct (g_index_good (Traversal.o_codec o') rs i0 _ Hrecs En eq_refl Hsm Hcd) as [Hgood Hcodec].
+  assert (Hro : ro_ok (Some [root])).
+  { split; [exact Hr|]. unfold P, payload_opt in Hlen. rewrite blen_app, blen_ld in Hlen. unfold ld_size in Hlen. lia. }
+  assert (Hh : TraversalV2.v2_header o' (blen P)
+               = mkv2 0 0 (51 + Traversal.o_dpad o') (blen P) (51 + Traversal.o_dpad o' + blen P + Traversal.o_ipad o')).
+  { unfold TraversalV2.v2_header. rewrite Hnone. reflexivity. }
+  rewrite Hh. rewrite <- !app_assoc.
+  apply (wf_finished_container false (wopts_of_t o') (Some [root]) bs 0 (idx_load rs i0)); try assumption; try reflexivity.
+  - cbn [w_dpad w_ipad wopts_of_t]. fold P. rewrite !blen_app, blen_pragma, blen_enc_v2hdr, !blen_zerosN. lia.
+  - exact (g_index_exact true (Traversal.o_codec o') secs rs i0 _ Hperm Hrecs En eq_refl Hsm Hcd).
 Qed.
